@@ -88,12 +88,12 @@ PROPS = {
     "C03": {
         "title": "Functions built from minterms, constants and variables evaluate as specified",
         "rules": [on_program(rules_eval.rule_level_sign), on_program(rules_eval.rule_twins), on_program(rules_eval.rule_eval_dispatch),
-                  on_program(rules_guard.rule_edge_for_value), on_program(rules_guard.rule_zero_of_stored), on_program(rules_eval.rule_fold_mirror)],
+                  on_program(rules_guard.rule_edge_for_value), on_program(rules_guard.rule_zero_of_stored), on_program(rules_eval.rule_fold_mirror), on_program(rules_eval.rule_uniform_shortcut)],
         "explanation": STRUCTURAL + ". C03: evaluation clauses only ('evaluation never depends on how the function is represented internally'): the evaluation walk follows the minterm's unprimed value at unprimed levels and its primed value at primed levels "
                        "(by-node walkers: from(X) on the X>0 edge, to(-X) on the other; by-level walker for identity-reduced relations: from, downLevel, to / from==to test for a skipped primed level, downLevel); "
                        "the multi-terminal and the edge-valued walkers (all four edge-valued instantiations) make the same sequence of tests and steps; evaluate() selects the walker by set / relation / identity-reduced relation and instantiates the "
                        "edge-valued helper with the edge operation and scalar type of the forest; the value→edge encoding rejects a value of the wrong range type and chooses the EV* zero edge on the stored value; and one clause of the construction half: the min / max folds over the values of repeated minterms treat an infinite element and an infinite accumulator as mirror images (the built function cannot depend on the order of the collection).",
-        "assumptions": ["the construction half of C03 (the recursive partition builder over minterm collections, don't-care / don't-change expansion, max/min combination, default values) is pointwise value semantics and is not decided",
+        "assumptions": ["of the construction half of C03 (the recursive partition builder over minterm collections) only the shortcut clause is decided: a whole-interval shortcut is taken only under tests that imply every minterm of the interval has the same entry at the level, and the level is covered by the pattern that entry names; the general partition loop, max/min combination and default values are pointwise value semantics and are not decided",
                         "that the walk reads the right child is trusted to getDownPtr (decided structurally under C12's layout rule)"],
         "technique": "guard-edge dominance and step-sequence patterns over clang CFGs of the evaluator helpers; twin comparison of the MT and EV walkers; control-dependence contexts of the walker selections",
         "level_text": "exact static rule check over evaluator_helper_mt, every instantiation of evaluator_helper<EOP>, dd_edge::evaluate and forest::getEdgeForValue; decides structural necessary conditions of the evaluation clause, not the minterm builder",
@@ -152,10 +152,11 @@ PROPS = {
     "C08": {
         "title": "Reachability operations return exactly the least fixed point",
         "rules": [on_program(rules_dispatch.rule_dispatch), rules_ftype.rule_mix_image, on_program(rules_sibling.rule_image_fire), on_program(rules_dispatch.rule_split_complete), on_program(rules_sibling.rule_graph_diagonals),
-                  on_program(rules_ct.rule_key_level_flag), on_program(rules_level.rule_position_kind), on_program(rules_level.rule_chain_args), on_program(rules_level.rule_compare_after_store), on_program(rules_ct.rule_state_in_key), on_program(rules_sibling.rule_policy_reachability)],
+                  on_program(rules_ct.rule_key_level_flag), on_program(rules_level.rule_position_kind), on_program(rules_level.rule_chain_args), on_program(rules_level.rule_compare_after_store), on_program(rules_ct.rule_state_in_key), on_program(rules_sibling.rule_policy_reachability),
+                  on_program(rules_level.rule_skip_rule_consulted), on_program(rules_level.rule_diagonal_lift)],
         "explanation": STRUCTURAL + ". C08: one clause — the traditional (frontier / no frontier), saturation and one-step image factories select the same accumulate operator per forest kind "
                        "(boolean MT: UNION, integer MT: DIST_MIN, EV+: MINIMUM), a necessary condition of all algorithms returning the identical edge and of the distance variants using (min, +1) everywhere; "
-                       "plus the cross-forest discipline of the reachability code.",
+                       "plus the cross-forest discipline of the reachability code; reduction-rule clause (`relation forests of every reduction rule`): every function that detects a level skipped by a relation node asks that forest for its rule, and saturation's split lifts the common diagonal to its level explicitly instead of letting the forest re-read a lower node (defect D22).",
         "assumptions": ["that the iteration reaches and stops at the least fixed point, and the correctness of fillSplit/recFire, are algorithmic semantics and are not decided"],
         "technique": "dispatch-table extraction from the clang CFGs of the sibling factories (control-dependence on labeling/range tests, template arguments of the instantiated class) and comparison",
         "level_text": "exact static rule check over the four sibling factories and the policy classes they instantiate; decides the accumulate-operator agreement clause only",
@@ -223,8 +224,8 @@ PROPS = {
     },
     "C15": {
         "title": "Index sets number the members of a set 0..n-1 in lexicographic order",
-        "rules": [rules_orphan.rule_terminal_root, rules_orphan.rule_level_sync, on_program(rules_codec.rule_header_type), rules_orphan.rule_index_width, on_program(rules_sibling.rule_getelem_twins)],
-        "explanation": STRUCTURAL + ". C15: the lookup-failure clause (an index lookup that runs into a terminal must fail, not unpack it), the level-synchronisation clause (a node is unpacked as the node of level k only after its level was compared with k: index sets skip the level of a single-valued variable — defect D15) and the cardinality-header clause (every accessor of the index-set cardinality header uses one element type).",
+        "rules": [rules_orphan.rule_terminal_root, rules_orphan.rule_level_sync, on_program(rules_codec.rule_header_type), rules_orphan.rule_index_width, on_program(rules_sibling.rule_getelem_twins), on_program(rules_codec.rule_header_written)],
+        "explanation": STRUCTURAL + ". C15: the lookup-failure clause (an index lookup that runs into a terminal must fail, not unpack it), the level-synchronisation clause (a node is unpacked as the node of level k only after its level was compared with k: index sets skip the level of a single-valued variable — defect D15) and the cardinality-header clauses (every accessor of the index-set cardinality header uses one element type; every index-set node built by the conversion has its header written before it is reduced — \"the stored cardinalities equal the true member counts\" needs at least that).",
         "assumptions": ["the numbering itself (offsets accumulated as edge values) is not decided"],
         "technique": "def-to-use path rule over clang CFGs (non-terminal arm of a handle test must be crossed before unpacking); writer/reader element-type agreement",
         "level_text": "exact static rule check on dd_edge::getElemInt/getElemLong and on the accessors of the index-set cardinality header; decides the lookup-failure and header-type clauses only",
